@@ -445,6 +445,12 @@ func (ip *Interp) JoinVal(a, b Val) Val {
 	switch x := a.(type) {
 	case *Int:
 		if y, ok := b.(*Int); ok && x.W == y.W {
+			if ip.gateExact {
+				if ip.gateSwap {
+					return ip.Ops.Gamma(ip.gate, y, x)
+				}
+				return ip.Ops.Gamma(ip.gate, x, y)
+			}
 			return ip.Ops.JoinGated(x, y, ip.gate)
 		}
 	case *Bool:
